@@ -20,6 +20,7 @@ import math
 import time
 
 import c06_gen as G
+import c06_pairs as CP
 import c06_pool
 import codec_common as cc
 import core
@@ -43,6 +44,12 @@ EXPORT_DECLARED_OK = 8 << 20
 CHUNK = 3000
 READ_VOLUME_CONST = 1 << 20
 MAX_HARD = 12                 # hangs / worker deaths after which the search stops (the verdict is a violation anyway)
+# time against the cost theorem: CPU seconds of PSDImage.open <= max(TIME_FLOOR, TIME_FACTOR * c * ticks), ticks = the
+# counting twin's ticks for THIS input (open.cost; by open_steps_bound <= the polynomial bound, which is used instead when
+# the input has no twin answer), c = seconds per tick measured in this run (95th percentile over the inputs seen so far)
+TIME_FLOOR = 1.0
+TIME_FACTOR = 30.0
+FLUSH = None                  # stream sentinel: run what has been generated so far before generating more
 
 
 # ------------------------------------------------------------------------------------------------ helpers
@@ -338,6 +345,19 @@ def gen_stream(ctx, quick, info):
         for fld, vn, off, raw in val:
             yield case(b[:off] + raw + b[off + len(raw):], "header-valid", f"{fld}={vn}", fx=nm, hdr_valid=fld,
                        hdr_value=vn, force_model=True, label="FileHeader")
+    # ---- PAIRS of co-located extremal fields, for every count-driven loop of the regenerated ReadLoops table
+    yield from gen_pairs(ctx, quick, info, case, syn)
+    # ---- NESTING chains for every recursive container of the cost model, depth by depth
+    yield FLUSH
+    dead = info.setdefault("dead_chains", set())
+    info["nest_stages"] = []
+    for depths in CP.stages(info.get("D") or 123):
+        row = CP.nest_stage(depths, dead)
+        info["nest_stages"].append({"depths": list(depths), "inputs": len(row), "chains_dropped_before": len(dead)})
+        for chain, b, why in row:
+            yield case(b, "nest", why, chain=chain, force_model=True, counted=True, force_export=False,
+                       label=chain.split("/")[0])
+        yield FLUSH
     # ---- fixtures
     donors = []
     t_trace = 0.0
@@ -436,6 +456,68 @@ def gen_stream(ctx, quick, info):
     # ---- random byte strings
     for bb, why in G.random_strings(rng, n["rand"]):
         yield case(bb, "random:" + why.split("[")[0], why)
+
+
+def gen_pairs(ctx, quick, info, case, syn):
+    """count = max x every length / size field of the first item, for every count-driven loop the table names (while
+    loops, item fields alone, in the thorough tier): on fixtures that contain an instance (quick: the three smallest and
+    one more drawn from ctx.rng; thorough: all) and on a synthetic minimal instance (the enclosing tagged block / image
+    resource transplanted into the small synthetic document, PSD and PSB; the skeleton loops: the synthetic documents)"""
+    import extract_c06
+    from concurrent.futures import ProcessPoolExecutor
+    rng = ctx.rng
+    fxbytes = info["fxbytes"]
+    t0 = time.time()
+    spans = [sp for sp in extract_c06.loop_spans(core.REPO / "src" / "psd_tools")
+             if sp["kind"] == "count" or (not quick and sp["kind"] == "while")]
+    keys = [CP.loop_key(sp) for sp in spans]
+    cands = [p for p in cc.fixtures() if p.stat().st_size <= MODEL_MAX]
+    with ProcessPoolExecutor(min(12, len(cands) or 1)) as ex:
+        idx = list(ex.map(CP.index_file, [(p, spans) for p in cands], chunksize=4))
+    info["t_pairs_index"] = round(time.time() - t0, 1)
+    per = {}
+    paths = {p.name: p for p in cands}
+    for nm, size, found in idx:
+        for k, inst in found.items():
+            per.setdefault(k, []).append((size, nm, inst))
+    for nm, b in syn[:2]:
+        _res, found = CP.find_instances(b, spans)
+        for k, inst in found.items():
+            per.setdefault(k, []).append((len(b), nm, inst))
+    stats = {}
+    for k in keys:
+        hosts = sorted(per.get(k, []), key=lambda x: (x[0], x[1]))
+        st = stats.setdefault(k, {"fixtures_with_instance": len(hosts), "hosts": [], "synthetic": [], "inputs": 0})
+        if not hosts:
+            continue
+        chosen = hosts if not quick else hosts[:3] + ([rng.choice(hosts[3:])] if len(hosts) > 3 else [])
+        label = k.split(":")[1].split(".")[0]
+        for size, nm, inst in chosen:
+            b = fxbytes.get(nm)
+            if b is None:
+                b = paths[nm].read_bytes()
+                fxbytes[nm] = b
+            st["hosts"].append(nm)
+            for bb, why in CP.pair_mutants(b, inst):
+                st["inputs"] += 1
+                yield case(bb, "pair", f"{k} {why}", fx=nm, label=label, force_export=False)
+        # the synthetic minimal instance
+        size, nm, inst = hosts[0]
+        if inst.get("container"):
+            for version in (1, 2):
+                sb = CP.transplant(fxbytes[nm], inst["container"], version)
+                if sb is None:
+                    continue
+                res, f2 = CP.find_instances(sb, spans, want={k})
+                if res[0] != "ok" or k not in f2:
+                    continue
+                st["synthetic"].append(f"v{version}:{len(sb)}B")
+                for bb, why in CP.pair_mutants(sb, f2[k]):
+                    st["inputs"] += 1
+                    yield case(bb, "pair", f"{k} synthetic-v{version}(from {nm}) {why}", label=label, force_export=False)
+    info["pairs"] = {"loops": len(keys), "loops_with_instance": sum(1 for k in keys if per.get(k)),
+                     "loops_without_instance_in_any_fixture": [k for k in keys if not per.get(k)],
+                     "per_loop": stats, "index_s": info["t_pairs_index"]}
 
 
 # ------------------------------------------------------------------------------------------------ run
@@ -538,6 +620,7 @@ def compare_open_cost(ctx, c, a, r, fxbytes, OC):
         ctx.disagree("open.cost answer not understood", {"answer": a[:4]})
         return
     n = len(c["b"])
+    c["_ticks"] = ticks
     py_ticks = cnt["reads"] + cnt["inits"]
     py_alloc = cnt["bytes"] + cnt["init_bytes"]
     OC["n"] += 1
@@ -613,8 +696,24 @@ def _run(ctx, pool, hello, has_cost, T):
     t_start = time.time()
     stream = gen_stream(ctx, quick, info)
     hard = [0]
-    while not pool.abort:
-        chunk = list(itertools.islice(stream, CHUNK))
+    info["D"] = D_LR16
+    CAL = []               # seconds of CPU per model tick, one entry per input with both numbers
+    exhausted = [False]
+
+    def next_chunk():
+        out = []
+        for c in stream:
+            if c is FLUSH:
+                if out:
+                    return out
+                continue
+            out.append(c)
+            if len(out) >= CHUNK:
+                return out
+        exhausted[0] = True
+        return out
+    while not pool.abort and not exhausted[0]:
+        chunk = next_chunk()
         if not chunk:
             break
         if time.time() - t_start > budget:
@@ -758,7 +857,28 @@ def _run(ctx, pool, hello, has_cost, T):
                 hungry_x.append((ent[1], ent[0]) + ent[2:])
                 if len(slow_x) > 4000:
                     slow_x, hungry_x = top10(slow_x), top10(hungry_x)
-            for sig, what, obs in violations_of(c, r):
+            vs = violations_of(c, r)
+            cpu = om.get("cpu_open")
+            if o and cpu is not None:
+                n_b = len(c["b"])
+                ticks = c.get("_ticks")
+                if ticks is not None and ticks >= 500 and cpu > 0:
+                    CAL.append(cpu / ticks)
+                tk = ticks if ticks is not None else (2105 + 4 * n_b + 168 * min(D_LR16, n_b // 12)) * n_b + 287
+                per_tick = max(1e-6, sorted(CAL)[int(0.95 * (len(CAL) - 1))]) if len(CAL) >= 20 else 5e-6
+                limit_s = max(TIME_FLOOR, TIME_FACTOR * per_tick * tk)
+                if cpu > limit_s:
+                    where_ = o["where"] if o["k"] != "ok" else "accepted"
+                    vs.append((f"C06/open/time-over-cost-bound/{where_}",
+                               f"PSDImage.open of {n_b} bytes used {cpu:.2f} s of CPU; the counting twin needs "
+                               f"{tk} ticks for this input ({'open.cost' if ticks is not None else 'polynomial bound of open_steps_bound'}), "
+                               f"at the {per_tick * 1e6:.2f} us per tick measured in this run x {TIME_FACTOR:.0f} that allows "
+                               f"{limit_s:.2f} s",
+                               {"cpu_open_s": round(cpu, 3), "wall_open_s": round(om.get("t_open", 0), 3), "model_ticks": tk,
+                                "seconds_per_tick_p95": per_tick, "limit_s": round(limit_s, 3), "outcome": o if o["k"] != "ok" else "ok"}))
+            if vs and c.get("chain"):
+                info.setdefault("dead_chains", set()).add(c["chain"])
+            for sig, what, obs in vs:
                 key = (n_changed(c, fxbytes), len(c["b"]))
                 cur = found.get(sig)
                 if cur is None or key < cur["key"]:
@@ -777,6 +897,7 @@ def _run(ctx, pool, hello, has_cost, T):
     T["model_driver"] = round(t_model, 1)
     T["trace_parse"] = info.get("t_trace")
     T["payload_index"] = info.get("t_payload_index")
+    T["pairs_index"] = info.get("t_pairs_index")
 
     # ---- shrink and report
     t0 = time.time()
@@ -784,7 +905,7 @@ def _run(ctx, pool, hello, has_cost, T):
         c = v["case"]
         # header cases are single-field by construction (and a subset of the bytes would be a different value);
         # a hang costs the full wall-clock limit per probe: both are reported as found
-        c2 = c if ("/hang/" in sig or c.get("hdr_invalid")) else shrink(pool, c, sig, fxbytes)
+        c2 = c if ("/hang/" in sig or "/time-over-cost-bound/" in sig or c.get("hdr_invalid")) else shrink(pool, c, sig, fxbytes)
         ctx.fail(sig, v["what"], input_repr(c2, fxbytes, sig), v["observed"],
                  "opening returns a document or raises an ordinary Exception within %.0f s and %d KiB + %d x len(b) of "
                  "resident-set growth; an invalid header is rejected" % (TIMEOUT, RSS_CONST_KB, RSS_FACTOR))
@@ -795,6 +916,11 @@ def _run(ctx, pool, hello, has_cost, T):
 
     # ---- metadata
     slow, hungry = top10(slow), top10(hungry)
+    ctx.extra["pairs"] = info.get("pairs")
+    ctx.extra["nesting"] = {"containers": [nm for nm, _, _ in CP.CONTAINERS], "junk_bytes_behind_every_level": list(CP.JUNK),
+                            "stages": info.get("nest_stages"), "chains_dropped_after_a_failing_input": sorted(info.get("dead_chains") or []),
+                            "seconds_per_tick_p95": (sorted(CAL)[int(0.95 * (len(CAL) - 1))] if CAL else None),
+                            "calibration_inputs": len(CAL), "time_rule": f"cpu(open) <= max({TIME_FLOOR} s, {TIME_FACTOR} x p95 x ticks)"}
     ctx.extra["stream"] = {"cases": n_cases, "model_cases": n_model, "per_section": dict(sorted(sections.items())),
                            "fixtures": info.get("fixtures"),
                            "payload_interior_mutants_by_reader_class": info.get("payload_kinds")}
